@@ -35,7 +35,7 @@ CLASSES = [
     "JSInt32Array", "JSUint32Array", "JSFloat64Array", "JSUint8Array", "JSInt8Array",
     "JSInt16Array", "JSUint16Array", "JSUint8ClampedArray", "JSFloat32Array",
     "RegExp", "MatchResult", "RegexVM", "Lexer", "Token", "bytes", "bytearray", "LoopContext",
-    "TryContext", "RegexParser",
+    "TryContext", "RegexParser", "JSError",
 ]
 CLS = {n: i for i, n in enumerate(CLASSES)}
 
